@@ -24,6 +24,18 @@ type recQ struct {
 
 var recQSeq int
 
+// recEnqCount: enqueues on the recording queues so far in this episode (directed schedules)
+var recEnqCount int
+
+// noteEnq: set per episode; told the payload of every job offered to a recording queue and the answer
+var noteEnq func(data int, ok bool)
+
+func tellEnq(item any, ok bool) {
+	if j, isJob := item.(interface{ Data() int }); isJob && noteEnq != nil {
+		noteEnq(j.Data(), ok)
+	}
+}
+
 func nextQID(inner any) string {
 	recQSeq++
 	id := strconv.Itoa(recQSeq)
@@ -48,6 +60,8 @@ func (q recQ) Purge()        { q.in.Purge() }
 func (q recQ) Close() error  { return q.in.Close() }
 func (q recQ) Enqueue(item any) bool {
 	ok := q.in.Enqueue(item)
+	recEnqCount++
+	tellEnq(item, ok)
 	vt.Mark("q:enq", item, b01(ok)+" "+q.id)
 	return ok
 }
@@ -87,6 +101,8 @@ func (q recPQ) Purge()        { q.in.Purge() }
 func (q recPQ) Close() error  { return q.in.Close() }
 func (q recPQ) Enqueue(item any, prio int) bool {
 	ok := q.in.Enqueue(item, prio)
+	recEnqCount++
+	tellEnq(item, ok)
 	vt.Mark("q:enq", item, b01(ok)+" "+q.id)
 	return ok
 }
